@@ -1441,8 +1441,8 @@ func Run(r *core.Run) {
 		fmt.Sscan(v, &maxRounds)
 	}
 	nconf := r.Pick(3, 8)
-	// JSX twins: thorough tier only (every 4th tree); quick: developer knob VERIF_C15_JSX=<every>
-	jsxEvery, jsxTwins := r.Pick(0, 4), 0
+	// JSX twins: of every 4th tree (thorough: every 2nd), 2 configurations each; developer knob VERIF_C15_JSX=<every>
+	jsxEvery, jsxTwins := r.Pick(4, 2), 0
 	if v := os.Getenv("VERIF_C15_JSX"); v != "" {
 		fmt.Sscan(v, &jsxEvery)
 	}
